@@ -180,6 +180,15 @@ def main():
         opts = {"max_layer_size_to_store": ck.rng.choice([None, 1000]), "return_all_hashes": ck.rng.random() < 0.5, "return_all_edges": False, "disable_batching": ck.rng.random() < 0.3}
         ck.guard(run_case, ck, {"gd": gd.to_json(), "cfg": cfg, "opts": opts, "starts": None})
         ck.count("many-layer-directed")
+    # matrix groups under a large modulus with entries just below it (products and row sums cross 2^24, 2^53, 2^63)
+    for _ in range(8 if not ck.thorough else 60):
+        if ck.enough():
+            break
+        gd = graphs.large_modulus_mat_def(ck.rng)
+        cfg = graphs.gen_cfg(ck.rng, gd)
+        opts = {"max_layer_size_to_store": ck.rng.choice([None, 1000]), "return_all_hashes": ck.rng.random() < 0.5, "return_all_edges": False, "disable_batching": ck.rng.random() < 0.3}
+        ck.guard(run_case, ck, {"gd": gd.to_json(), "cfg": cfg, "opts": opts, "starts": None})
+        ck.count("large-modulus matrix graphs")
     ck.assumptions = [
         "hash injective on the explored set (hook H2 reports any equal-hash/different-state event; none tolerated)",
         "orbits capped for the correspondence; the theorems are unbounded",
